@@ -66,9 +66,11 @@ def run(tier, seed):
     quick = tier == "quick"
     plan = [("tut13x2", 40), ("guix2", 24), ("tut1x2e", 16), ("tut3fedx2", 16), ("guigetx2", 24)] if quick else \
            [("tut13x2", 300), ("guigetx2", 300), ("guigetx3", 200), ("tut3fedx2", 200), ("tut13x3", 300), ("guix2", 300), ("tut1x2e", 200), ("guix3e", 200), ("minx2", 200), ("getx2", 200), ("tut13x4", 150)]
-    plan += [("gen:%d:2" % (seed + 201), 16)] if quick else [("gen:%d:%d" % (seed + 201 + i, 2 + i % 2), 150) for i in range(8)]
+    plan += [("gen:%d:2" % (seed + 201), 16)] if quick else [("gen:%d:%d" % (seed + 201 + i, 2 + i % 2), 150) for i in range(4)]
     camp.replay_model("tut1x2e", 6 if tier == "quick" else 40, seed=seed + 1)
     camp.replay_model("tut13x2e", 4 if tier == "quick" else 40, seed=seed + 2)
+    if not quick:
+        plan = [(a, max(16, int(b * D.THOROUGH_SCALE))) for a, b in plan]
     for name, n in plan:
         inst = D.make_instance(name).prepare()
         jobs = jobs_for(inst, rng, n)
